@@ -57,11 +57,12 @@ class World:
         ss.incoming = dict(state)
 
     def send(self, letter):
-        sender, multicast, flag, sid = letter
+        sender, multicast, flag, sid = letter[:4]
+        uflag = letter[4] if len(letter) > 4 else 1  # the SD unicast flag: clear = entries ignored, sender still tracked
         entries = []
         if self.with_entry:
             entries = [("find", 0x4242, 0xFFFF, 0xFF, 3, 0xFFFFFFFF, (), ())]
-        data = refcodec.sd_message(sid, entries, reboot=bool(flag), unicast=True)
+        data = refcodec.sd_message(sid, entries, reboot=bool(flag), unicast=bool(uflag))
         self.calls.clear()
         self.returns.clear()
         exc = None
@@ -78,7 +79,7 @@ class World:
 
 def model_step(model: dict, letter):
     """reference rule, straight from the statement"""
-    sender, multicast, flag, sid = letter
+    sender, multicast, flag, sid = letter[:4]
     k = (sender, multicast)
     prev = model.get(k)
     detect = False
@@ -186,6 +187,8 @@ def check(ctx):
         ("all-48-letters-depth-3", letters("PQ", (0, 1)), 3, False),
         ("one-sender-one-channel-with-entry-closure", letters("Q", (0,)), 10 ** 6, True),
         ("ipv6-same-host-other-scope-depth-3", letters("RST", (1,)), 3, False),
+        # messages whose SD unicast flag is clear: their entries are ignored (C03), the sender's reboot is not
+        ("one-sender-unicast-flag-set-or-clear-closure", [l + (u,) for l in letters("P", (0, 1)) for u in (0, 1)], 10 ** 6, True),
     ]
     if ctx.thorough:
         searches.append(("four-keys-closure", letters("PQ", (0, 1)), 10 ** 6, False))
@@ -223,7 +226,8 @@ def check(ctx):
     return core.finish(ctx, "model_checking", cov, viols, [
         "session id 0 (session handling off) is outside the property's alphabet and not sent",
         "state vector = _SessionStorage.incoming; restored states were produced by real calls",
-        "messages are SD notifications with the unicast flag set built by the independent encoder",
+        "messages are SD notifications built by the independent encoder; the SD unicast flag is set except in the "
+        "search that varies it",
     ])
 
 
